@@ -4,11 +4,14 @@ CONSTANTS
   Methods = {"GET", "HEAD"}
   Conns = {"none", "keepalive", "close"}
   Statuses = {200, 201, 204, 304, 404, 500}
-  Bodies = {"none", "empty", "str", "bytes", "list", "big", "gen", "genWithEmpty", "genEmptyMid", "genAllEmpty", "file", "stream", "yield", "error"}
+  Bodies = {"none", "empty", "str", "bytes", "list", "big", "gen", "genWithEmpty", "genEmptyMid", "genAllEmpty", "genBig", "file", "trickle", "stream", "yield", "error"}
   Flags = {TRUE, FALSE}
+  Spells = {"canon", "title", "upper", "list"}
+  Wins = {0, 1, 4000}
   SeqConns = {"none", "keepalive", "close"}
   SeqStatuses = {200, 201, 204, 304, 404, 500}
-  SeqBodies = {"none", "empty", "str", "bytes", "list", "big", "gen", "genWithEmpty", "genEmptyMid", "genAllEmpty", "file", "stream", "yield", "error"}
+  SeqBodies = {"none", "empty", "str", "bytes", "list", "big", "gen", "genWithEmpty", "genEmptyMid", "genAllEmpty", "genBig", "file", "trickle", "stream", "yield", "error"}
+  SeqSpells = {"canon", "title", "upper", "list"}
   MaxReq = 3
   DefectChoices = {{}}
 INVARIANT TypeOK
